@@ -318,6 +318,9 @@ type property struct {
 type objectBase struct {
 	properties []*property
 	lock       sync.Mutex
+	// The bytes consumed by the last successful unmarshal, for the container
+	// to advance without walking the whole nested value again by Size().
+	nbUnmarshaled int
 }
 
 func (v *objectBase) Size() int {
@@ -378,6 +381,14 @@ func (v *objectBase) unmarshal(p []byte, eof bool, maxElems int) (err error) {
 		return oe.Errorf("maxElems=%v with eof", maxElems)
 	}
 
+	// Remember the bytes consumed when success.
+	total := len(p)
+	defer func() {
+		if err == nil {
+			v.nbUnmarshaled = total - len(p)
+		}
+	}()
+
 	readOne := func() (amf0UTF8, Amf0, error) {
 		var u amf0UTF8
 		if err = u.UnmarshalBinary(p); err != nil {
@@ -403,7 +414,16 @@ func (v *objectBase) unmarshal(p []byte, eof bool, maxElems int) (err error) {
 		v.lock.Lock()
 		v.properties = append(v.properties, &property{key: u, value: a})
 		v.lock.Unlock()
-		p = p[a.Size():]
+
+		// Advance by the bytes consumed if the value knows it, because the Size()
+		// of nested object walks all its properties again for each level.
+		if c, ok := a.(interface {
+			nbConsumed() int
+		}); ok {
+			p = p[c.nbConsumed():]
+		} else {
+			p = p[a.Size():]
+		}
 		return nil
 	}
 
@@ -485,6 +505,10 @@ func (v *Object) Size() int {
 	return int(1) + v.eof.Size() + v.objectBase.Size()
 }
 
+func (v *Object) nbConsumed() int {
+	return int(1) + v.nbUnmarshaled
+}
+
 func (v *Object) UnmarshalBinary(data []byte) (err error) {
 	var p []byte
 	if p = data; len(p) < 1 {
@@ -543,6 +567,10 @@ func (v *EcmaArray) amf0Marker() marker {
 
 func (v *EcmaArray) Size() int {
 	return int(1) + 4 + v.eof.Size() + v.objectBase.Size()
+}
+
+func (v *EcmaArray) nbConsumed() int {
+	return int(1) + 4 + v.nbUnmarshaled
 }
 
 func (v *EcmaArray) UnmarshalBinary(data []byte) (err error) {
@@ -608,6 +636,10 @@ func (v *StrictArray) Size() int {
 	return int(1) + 4 + v.objectBase.Size()
 }
 
+func (v *StrictArray) nbConsumed() int {
+	return int(1) + 4 + v.nbUnmarshaled
+}
+
 func (v *StrictArray) UnmarshalBinary(data []byte) (err error) {
 	var p []byte
 	if p = data; len(p) < 5 {
@@ -619,6 +651,7 @@ func (v *StrictArray) UnmarshalBinary(data []byte) (err error) {
 	v.count = binary.BigEndian.Uint32(p[1:])
 	p = p[5:]
 
+	v.nbUnmarshaled = 0
 	if int(v.count) <= 0 {
 		return
 	}
